@@ -12,6 +12,16 @@ class SetAction(argparse.Action):
         setattr(namespace, self.dest, set(values))
 
 
+def pp_defs_type(arg: str) -> dict:
+    """A JSON object or, as in the configuration file, a list of names"""
+    value = json.loads(arg)
+    if isinstance(value, list):
+        value = {key: "" for key in value}
+    if not isinstance(value, dict):
+        raise argparse.ArgumentTypeError("expected a JSON object or list")
+    return value
+
+
 def cli(name: str = "fortls") -> argparse.ArgumentParser:
     """Parses the command line arguments to the Language Server
 
@@ -255,7 +265,7 @@ def cli(name: str = "fortls") -> argparse.ArgumentParser:
     )
     group.add_argument(
         "--pp_defs",
-        type=json.loads,
+        type=pp_defs_type,
         default={},
         metavar="JSON",
         help=(
